@@ -78,8 +78,18 @@ def _worker(args):
 
 
 def run(ctx, builds, strategy, evaluate, classify, nworkers, per_worker, sample=None, driver_kwargs=None,
-        fixed_cases=()):
-    """Main entry for a check.  builds: dict variant -> build dict (already built)."""
+        fixed_cases=(), variants=None):
+    """Main entry for a check.  builds: dict variant -> build dict (already built).
+    variants: build names drawn per case (field "variant" of the case dict): the same generated cases spread over several builds."""
+    if variants and not ctx.replay:
+        from hypothesis import strategies as _st
+        base_strategy, base_classify = strategy, classify
+        strategy = lambda: _st.tuples(base_strategy(), _st.sampled_from(list(variants))).map(lambda t: dict(t[0], variant=t[1]))
+
+        def classify(c):
+            k, cls = base_classify(c)
+            v = c.get("variant", variants[0])
+            return ((k, v) if (k is not None and v != variants[0]) else k), list(cls) + ["build:" + v]
     _STATE.update({"ctx": ctx, "builds": builds, "strategy": strategy, "evaluate": evaluate,
                    "classify": classify, "sample": sample or _sample_default, "driver_kwargs": driver_kwargs})
     if ctx.replay:
